@@ -266,5 +266,86 @@ func runC15(c *Ctx) {
 		}
 		ft := tupleVars(u, "node.(*KVNode).GetMergeHandler")
 		r.Check("C15-H3", u.Name+": the handler comes from the looked-up node", "", len(ft) == 3 && ft[0] == "f", fmt.Sprint(ft))
+		// every partition's argument list has its own backing array: the list is either continued from the
+		// map entry of the same partition, freshly made, or appended to itself
+		n := 0
+		for _, s := range u.Match(an.LocalStore("cmdArgs")) {
+			n++
+			var t string
+			switch {
+			case s.Tuple != nil:
+				t = u.C.Term(s.Tuple)
+			case s.RHS != nil:
+				t = u.C.Term(s.RHS)
+			}
+			fresh := false
+			if ce, ok := ast.Unparen(rhsOf(s)).(*ast.CallExpr); ok {
+				if id, ok := ce.Fun.(*ast.Ident); ok && id.Name == "make" {
+					fresh = true
+				}
+			}
+			ok := fresh || strings.HasPrefix(t, "append(cmdArgs, ") || t == "cmdArgMap[nsNode.FullName()]"
+			r.Check("C15-H3", u.Name+": a partition's argument list never shares storage with another partition's", u.Pos(s.Pos), ok, "assigned "+t+": a slice shared between partitions is overwritten by the other partitions' keys")
+		}
+		r.Min("C15-H3", n, 3, "assignments to the per-partition argument list")
 	}
+	// H4: the modulus the server routes with is the partition count of the namespace as configured now
+	if u := c.unit("C15-H2", "node.(*NamespaceMgr).InitNamespaceNode"); u != nil {
+		set := an.StoreTerm("recv.nsMetas[p0.BaseName]")
+		for _, s := range u.Match(set) {
+			t := defTermOf(u, s)
+			// the stored meta is built from the configuration being installed
+			okv := false
+			if id, isId := ast.Unparen(s.RHS).(*ast.Ident); isId {
+				o := u.Info().ObjectOf(id)
+				okv = true
+				seen := 0
+				for _, d := range u.Sites {
+					if d.Kind == flow.SStore && d.Local == o && d.RHS != nil && reachesSite(u, d, s) && sameBlockOrDom(u, d, s) {
+						seen++
+						if !strings.Contains(u.C.Term(d.RHS), "PartitionNum: p0.PartitionNum") {
+							okv = false
+						}
+						t = u.C.Term(d.RHS)
+					}
+				}
+				okv = okv && seen >= 1
+			} else {
+				okv = strings.Contains(t, "PartitionNum: p0.PartitionNum")
+			}
+			r.Check("C15-H2", u.Name+": a namespace meta is recorded with the configured partition count", u.Pos(s.Pos), okv, "stored "+t)
+		}
+		r.Min("C15-H2", len(u.Match(set)), 1, "namespace meta stores")
+		// the node is created only after the meta agrees with the configuration: freshly stored, or tested equal
+		r.Order("C15-H2", u, an.Call("node.NewKVNode"), []an.M{set, an.Edge("_.PartitionNum == p0.PartitionNum")}, an.OrderOpts{Min: 1})
+	}
+	for _, sw := range c.W.AllSites(an.Store("node.NamespaceMeta.PartitionNum"), "PartitionNum", nil) {
+		r.Bad("C15-H2", sw.U.Name+": the partition count of a live namespace meta is never changed in place", sw.U.Pos(sw.S.Pos), "routing (hash % PartitionNum) would change under running partitions")
+	}
+	for _, sw := range c.W.AllSites(an.Store("node.NamespaceMgr.nsMetas"), "nsMetas", nil) {
+		if sw.U.Name == "node.NewNamespaceMgr" {
+			continue
+		}
+		r.Check("C15-H2", sw.U.Name+": namespace metas are recorded by InitNamespaceNode only", sw.U.Pos(sw.S.Pos), sw.U.Name == "node.(*NamespaceMgr).InitNamespaceNode", "")
+	}
+}
+
+func rhsOf(s *flow.Site) ast.Expr {
+	if s.RHS != nil {
+		return s.RHS
+	}
+	if s.Tuple != nil {
+		return s.Tuple
+	}
+	return &ast.Ident{Name: "_"}
+}
+
+// reachesSite / sameBlockOrDom: definition d is the one that flows into s when it is in the same block before s,
+// or in a block dominating s's.
+func reachesSite(u *an.Unit, d, s *flow.Site) bool { return reaches(u, d, s) }
+func sameBlockOrDom(u *an.Unit, d, s *flow.Site) bool {
+	if d.Block == s.Block {
+		return d.SameBlockBefore(s)
+	}
+	return u.G.Dominates(d.Block, s.Block)
 }
